@@ -104,6 +104,18 @@ def subquery_corpus():
             "select x1.a, (select count(*) from t3 as y where y.a = x1.a) from t1 as x1",
             "select x1.a, (select y.a + sum(y.b) from t3 as y where y.a = x1.a group by y.a) from t1 as x1",
             "select x1.a from t1 as x1 where x1.a in (select y.a from t3 as y where y.b in (select z.b from t2 as z))"]
+    # join conditions: several equalities, keys that are expressions, expressions mixing both inputs
+    conds = ["x1.a = x2.a and x1.b = x2.b", "x1.a = x2.a and x1.b = x2.b * x1.a", "x1.a = x2.a and x1.b = x2.b - x1.a",
+             "x1.a = x2.a and x1.b + x2.b = 3", "x1.a = x2.a and x1.b = x2.b and x1.c = x2.c",
+             "x1.a = x2.a and x2.b = x1.b * 2", "x1.a + x2.a = 2 and x1.b = x2.b", "x1.a = x2.a and x1.a = x2.b",
+             "x1.a = x2.a and x2.a = x1.b * x2.b", "x1.a = x2.b * x1.b", "x1.a * x2.a = x1.b",
+             "x1.a = x2.a and x1.b = x2.b and x1.c = x2.c || x1.c", "x1.a = x2.a and x1.b - x2.b = x1.a and x1.c = x2.c",
+             "x1.a + 1 = x2.a + 1 and x1.b * 2 = x2.b * 2"]
+    for cnd in conds:
+        out.append(f"select x1.a, x2.b from t1 as x1 join t2 as x2 on {cnd}")
+        out.append(f"select x1.a, x2.b from t1 as x1 left join t2 as x2 on {cnd}")
+        out.append(f"select x1.a, x2.b, x1.c from t1 as x1 cross join t2 as x2 where {cnd}")
+        out.append(f"select count(*) from t1 as x1 join t2 as x2 on {cnd} join t3 as x3 on x3.a = x2.a")
     # derived tables (subqueries in FROM): plain, computed, simplifiable, aggregated, joined, filtered
     for inner in ("select a, b from t1", "select a + 1 as s, b from t1", "select a + 0 as s, b from t1",
                   "select a * 1 as s, b from t1", "select a * b as s, b from t1", "select - (- a) as s, b from t1",
@@ -206,7 +218,8 @@ def check_c17(args):
         if qinfo.get("source") == "subquery-family":
             key = f"{where}|{qinfo['sql']}"
             stats.setdefault("subq_failures", set()).add(key)
-            fid = ("F33" if " from (select distinct" in qinfo["sql"] else "F32") if " from (select" in qinfo["sql"] else "Q8"
+            fid = ("F33" if " from (select distinct" in qinfo["sql"] else "F32") if " from (select" in qinfo["sql"] else \
+                ("Q8" if "(select" in qinfo["sql"] else "Q2")
             if key in known_subq and v.is_known(fid):
                 v.note_known(fid)
                 note(f"known:{fid} (listed input)")
